@@ -216,26 +216,38 @@ def normalisedB {κ : Type} (tags : AList κ (AList Sym Rat)) : Bool :=
 
 /-! ### hypotheses (all decidable) -/
 
-/-- the values of every type are pairwise distinct (as `Constant`s) and are values (not the
+/-- the values of a type are pairwise distinct (as `Constant`s) and are values (not the
     "no value" marker) -/
-def tblOK (tbl : Tbl) : Bool :=
-  tbl.all (fun e => e.2.Nodup && !(e.2.contains ""))
+def valsOK (vals : List String) : Bool := vals.Nodup && !(vals.contains "")
 
-/-- no value list is empty (hypothesis of the mass theorems; finding C17-F1 otherwise) -/
-def tblNonEmpty (tbl : Tbl) : Bool := tbl.all (fun e => !e.2.isEmpty)
-
-/-- a row is a Python dict (distinct keys) whose constants of a table type are all slots, i.e.
-    carry no value yet (finding C17-F2 otherwise: the code re-instantiates them) -/
+/-- a row is a Python dict (distinct keys); its constants of a table type are all slots, i.e.
+    carry no value yet (finding C17-F2 otherwise: the code re-instantiates them), and the value
+    lists used by the row are duplicate free (finding C17-F3 otherwise) -/
 def rowOK {ν : Type} (tbl : Tbl) (row : AList Sym ν) : Bool :=
   (AList.keys row).Nodup &&
-  (AList.keys row).all (fun P => !(slot? tbl P).isSome || P = Sym.const P.ty "")
+  (AList.keys row).all (fun P => match slot? tbl P with
+    | none => true
+    | some vals => P = Sym.const P.ty "" && valsOK vals)
 
 def rulesOK {κ ν : Type} (tbl : Tbl) (d : AList κ (AList Sym ν)) : Bool :=
   d.all (fun e => rowOK tbl e.2)
 
-/-- program side: every constant of the template is a slot of the table -/
+/-- no slot of the row has an empty value list (finding C17-F1 otherwise) -/
+def rowNonEmpty {ν : Type} (tbl : Tbl) (row : AList Sym ν) : Bool :=
+  (AList.keys row).all (fun P => match slot? tbl P with
+    | some [] => false
+    | _ => true)
+
+def rulesNonEmpty {κ ν : Type} (tbl : Tbl) (d : AList κ (AList Sym ν)) : Bool :=
+  d.all (fun e => rowNonEmpty tbl e.2)
+
+/-- program side: every constant of the template is a slot of the table with a duplicate-free
+    value list -/
 def symOK (tbl : Tbl) (P : Sym) : Bool :=
-  !(P.kind = .const) || (P = Sym.const P.ty "" && AList.contains P.ty tbl)
+  !(P.kind = .const) ||
+    (P = Sym.const P.ty "" && match AList.lookup P.ty tbl with
+      | some vals => valsOK vals
+      | none => false)
 
 mutual
   def progOK (tbl : Tbl) : Prog → Bool
